@@ -17,8 +17,8 @@ type WSState struct {
 	NeverNil   bool   // c.Get never returns a nil interface      -> SA4023 in b
 	LocalB     int    // 0..3: local problems in b (S1002, SA4000, ST1005 ...)
 	LocalA     int    // 0..3: local problems in a
-	ConfRoot   int    // 0..4: variant of /staticcheck.conf
-	ConfB      int    // 0..4: variant of /b/staticcheck.conf
+	ConfRoot   int    // 0..7: variant of /staticcheck.conf
+	ConfB      int    // 0..7: variant of /b/staticcheck.conf
 	TestUses   bool   // a's in-package test uses helperOnlyForTests
 	ExtTest    bool   // a has an external test package
 	GoVersion  string // go directive of the module
@@ -34,6 +34,11 @@ var confVariants = []string{
 	"checks = [\"inherit\", \"-SA1019\"]\ninitialisms = [\"inherit\", \"XYZ\"]\n",
 	"dot_import_whitelist = [\"example.com/ws/c\"]\nchecks = [\"inherit\", \"ST1001\"]\n",
 	"checks = [\"S*\", \"SA4*\", \"U1000\"]\n",
+	// settings only: whether they matter depends on checks enabled elsewhere (an outer
+	// file or the -checks flag)
+	"initialisms = [\"inherit\", \"XYZ\"]\n",
+	"initialisms = []\n",
+	"dot_import_whitelist = [\"example.com/ws/c\"]\ninitialisms = [\"XYZ\"]\n",
 }
 
 func (s WSState) Files() map[string]string {
@@ -89,6 +94,7 @@ func (s WSState) Files() map[string]string {
 	case 3:
 		b.WriteString("// L3 has S1005 and an unused function.\nfunc L3(xs []int) int {\n\tn := 0\n\tfor i, _ := range xs {\n\t\tn += i\n\t}\n\treturn n\n}\n\nfunc unusedInB() {}\n\n")
 	}
+	b.WriteString("// ApiXyz is named against the initialism rule (API by default, XYZ when configured).\nfunc ApiXyz() int { return 1 }\n\n")
 	b.WriteString("// Fmt keeps the imports used.\nfunc Fmt() string { return fmt.Sprint(errors.New(\"x\")) }\n")
 	f["b/b.go"] = b.String()
 	f["b/tagged.go"] = "//go:build foo\n\npackage b\n\n// Tagged exists only with -tags foo.\nfunc Tagged(x bool) bool {\n\tif x == false {\n\t\treturn true\n\t}\n\treturn false\n}\n"
